@@ -120,10 +120,10 @@ def elemAt {α : Type} (xs : List α) (p : Int) : Option α :=
   let q := normIdx xs.length p
   if q < 0 then none else xs[q.toNat]?
 
-theorem takePositions_nil {α : Type} (xs : List α) : takePositions xs [] = some [] := by
+theorem takePos_nil {α : Type} (xs : List α) : takePositions xs [] = some [] := by
   simp [takePositions]
 
-theorem takePositions_cons {α : Type} (xs : List α) (p : Int) (ps : List Int) (sel : List α) :
+theorem takePos_cons_iff {α : Type} (xs : List α) (p : Int) (ps : List Int) (sel : List α) :
     takePositions xs (p :: ps) = some sel ↔
       ∃ row rest, elemAt xs p = some row ∧ takePositions xs ps = some rest ∧ sel = row :: rest := by
   unfold takePositions elemAt
